@@ -6,7 +6,7 @@ CONSTANTS
   CfgSet <- BindCfgs
   SameCfg = TRUE
   Openers = {"A"}
-  MaxOpens = 0
+  MaxOpens = 1
   Ids = {1, 2}
   Hosts = {"h0"}
   MaxWrites = 0
@@ -22,8 +22,8 @@ CONSTANTS
   AdvMsgs = {}
   MaxAdv = 0
   Bridgers = {}
-  MaxHandles = 2
-  MaxCtr = 2
+  MaxHandles = 1
+  MaxCtr = 3
 VIEW View
 CONSTRAINT Bound
 INVARIANTS NoViolation TypeOK AckSound QueueBound InitialCredit ExactlyOne TargetCarried BoundedRetry Released DoneResolved
